@@ -235,6 +235,47 @@ def _callers(ctx: Ctx, ro: FuncInfo) -> None:
                        construct=f"{callee.name} default {p_} in "
                                  f"{fi.qualname}", nontrivial=False)
     ctx.count("defaulted_settings", n_def)
+    # ---- the System constructor keeps each setting under its own name
+    sysm = repo.modules.get("moptipyapps.dynamic_control.system")
+    scls = sysm.classes.get("System") if sysm else None
+    sinit = scls.methods.get("__init__") if scls else None
+    n_fld = 0
+    if sinit is not None:
+        sparams = set(sinit.params[1:])
+
+        def value_names(e: ast.expr) -> set[str]:
+            """Names whose VALUE can become the value of e (tests of
+            conditional expressions and validation labels do not count)."""
+            if isinstance(e, ast.IfExp):
+                return value_names(e.body) | value_names(e.orelse)
+            if isinstance(e, ast.Call) and e.args and ast.unparse(
+                    e.func).split(".")[-1].startswith("check_"):
+                return value_names(e.args[0])
+            return {x.id for x in ast.walk(e) if isinstance(x, ast.Name)}
+        for st in ast.walk(sinit.node):
+            if not isinstance(st, (ast.Assign, ast.AnnAssign)) or getattr(
+                    st, "value", None) is None:
+                continue
+            tg = st.targets[0] if isinstance(st, ast.Assign) else st.target
+            if not (isinstance(tg, ast.Attribute) and isinstance(
+                    tg.value, ast.Name) and tg.value.id == "self"
+                    and tg.attr in sparams):
+                continue
+            v = inline_locals(sinit.node, st.value)
+            vn = value_names(v) & sparams
+            if not vn:
+                continue
+            n_fld += 1
+            ok = tg.attr in vn
+            ctx.ob("D10.9", sinit, st, ok,
+                   f"System.{tg.attr} stores the constructor argument of "
+                   "that name" if ok else
+                   f"System.{tg.attr} can only take the values of "
+                   f"{sorted(vn)}, never of the argument `{tg.attr}` "
+                   "itself: simulations and J use another setting than the "
+                   "one the system was created with",
+                   construct=f"System field {tg.attr}", nontrivial=False)
+    ctx.count("system_fields", n_fld)
     ctx.count("simulation_call_sites", n_calls)
     ctx.ob("D10.9", ro, ro.node, n_calls >= 3,
            f"{n_calls} call sites of run_ode / multi_run_ode inspected "
